@@ -153,8 +153,16 @@ def s4_report(ctx):
     qn = 'Portfolio.portfolio_to_dict'
     fn = ctx.fn(qn)
 
+    FIGURES = ('net_quantity', 'market_value', 'unrealised_pnl', 'realised_pnl', 'total_pnl')
+
     def no_props(caller, callee, depth):
-        return default_policy(caller, callee, depth) and not callee.is_property
+        # the five reported figures of a Position stay symbolic; whatever else the report goes through (a breakdown record, its properties, a helper) is read through
+        if callee.cls is not None and callee.cls.name == 'Position' and callee.name in FIGURES:
+            return False
+        if default_policy(caller, callee, depth) and not (callee.is_property and callee.cls is not None and callee.cls.name in ('Position', 'Portfolio', 'PositionHandler')):
+            return True
+        from ..symex import _writes_self
+        return depth <= 5 and callee.path.endswith('portfolio/position.py') and callee.name != '__init__' and not _writes_self(callee)
     sx = SymEx(ctx.M, policy=no_props)
     ps = sx.run_entry(fn)
     ctx.paths_explored += len(ps)
@@ -180,6 +188,7 @@ def s4_report(ctx):
     table = {'quantity': 'net_quantity', 'market_value': 'market_value', 'unrealised_pnl': 'unrealised_pnl', 'realised_pnl': 'realised_pnl', 'total_pnl': 'total_pnl'}
     spelled = {'net_quantity': T.t_sub(('attr', pos, 'buy_quantity'), ('attr', pos, 'sell_quantity'))}
     spelled['market_value'] = T.t_mul(('attr', pos, 'current_price'), spelled['net_quantity'])
+    spelled['total_pnl'] = T.t_add(('attr', pos, 'realised_pnl'), ('attr', pos, 'unrealised_pnl'))      # the identity C03-S1 establishes
     for k, prop in table.items():
         if k not in d:
             ctx.violation('C02.S4', "report row has key '%s'" % k, fn.site(), sorted(d), key='C02.S4|key|%s' % k)
@@ -232,6 +241,14 @@ def s5_valuation(ctx):
         v = ps[0].value
         rest = T.t_sub(v, A('self', 'cash'))
         ok = rest[0] == 'call' and rest[1] == ('fn', 'PositionHandler.total_market_value') and rest[2] == (A('self', 'pos_handler'),)
+        if not ok:
+            # the handler's total read through (spelled out here, or the handler's method inlined): the same sum over the portfolio's own positions
+            try:
+                l2 = linear_sum(rest, ps[0])
+            except Exception:
+                l2 = None
+            ok = l2 is not None and not l2[2] and bool(l2[1]) and all(i in ('self.pos_handler.positions.items()', 'self.pos_handler.positions.values()') for i in l2[1]) and \
+                (T.teq(l2[0], A(POS, 'market_value')) or T.teq(l2[0], T.t_mul(A(POS, 'current_price'), T.t_sub(A(POS, 'buy_quantity'), A(POS, 'sell_quantity')))))
     ctx.require(ok, 'C02.S5', 'total_equity = total_market_value + cash', ctx.fn('Portfolio.total_equity').site(), [fmt(p.value) for p in ps],
                 key='C02.S5|total_equity')
     # every non-zero fill re-marks the position at the fill price
